@@ -66,7 +66,13 @@ func liftToKnownRoot(t *Term, f *ssa.Function, depth int) *Term {
 		if len(sites) != 1 {
 			return markParams(t, FuncName(f))
 		}
-		t = substParams(t, argTerms(newTB(), sites[0]))
+		if g := calleeOf(sites[0]); g != f && g != nil && f.Parent() != nil {
+			// a literal run by the helper this call invokes: its own parameters are what the
+			// helper passes to it, not the helper call's arguments
+			t = substLiteralParams(t, f, g, sites[0], false)
+		} else {
+			t = substParams(t, argTerms(newTB(), sites[0]))
+		}
 		f = sites[0].Parent()
 		depth++
 	}
@@ -208,6 +214,15 @@ func (b *termBuilder) build(v ssa.Value, d int) *Term {
 			return it
 		}
 		t := &Term{Op: "call", Sym: CalleeName(x.Common()), Call: x}
+		if prm, ok := x.Common().Value.(*ssa.Parameter); ok && t.Sym == "dyn" {
+			// a call of a function-typed parameter: which parameter is part of the name, so that
+			// the call can be resolved once the argument bound to it is known (substParams)
+			for i, q := range prm.Parent().Params {
+				if q == prm {
+					t.Sym = fmt.Sprintf("dyn:p%d", oldParamIndex(prm.Parent(), i))
+				}
+			}
+		}
 		if t.Sym == "builtin:min" || t.Sym == "builtin:max" {
 			// the built-ins read like the repository's own variadic helpers ints.Min / ints.Max
 			t.Sym = map[string]string{"builtin:min": "collection/ints.Min[builtin]", "builtin:max": "collection/ints.Max[builtin]"}[t.Sym]
